@@ -1,6 +1,9 @@
 package checks
 
-import "fmt"
+import (
+	"fmt"
+	"time"
+)
 
 func sprint(v any) string { return fmt.Sprint(v) }
 func trunc(s string, n int) string {
@@ -9,3 +12,5 @@ func trunc(s string, n int) string {
 	}
 	return s
 }
+
+func sleepMs(n int) { time.Sleep(time.Duration(n) * time.Millisecond) }
